@@ -355,16 +355,32 @@ func (ms *Modules) process() []error {
 	var mods []*Module
 	var errs []error
 
-	// Collect the list of modules we know about now so when we range
-	// below we don't pick up new modules.  We assume the user tells
-	// us explicitly which modules they are interested in.
-	mods = append(mods, inKeyOrder(ms.Modules)...)
-	// Submodules are normally reached through the module that includes
-	// them; one whose module is missing must still be linked.
-	mods = append(mods, inKeyOrder(ms.SubModules)...)
-	for _, m := range mods {
-		if err := ms.include(m); err != nil {
-			errs = append(errs, err)
+	// Collect the list of modules we know about now so we do not range
+	// over maps that grow while the imports and includes are linked.
+	// Linking may load further modules. Those that an import or include
+	// names are linked when they are reached; a loaded file may hold
+	// others as well, which are converted like all modules and therefore
+	// have to be linked, too: repeat until a pass adds none.
+	linked := map[*Module]bool{}
+	for {
+		mods = mods[:0]
+		mods = append(mods, inKeyOrder(ms.Modules)...)
+		// Submodules are normally reached through the module that includes
+		// them; one whose module is missing must still be linked.
+		mods = append(mods, inKeyOrder(ms.SubModules)...)
+		n := 0
+		for _, m := range mods {
+			if linked[m] {
+				continue
+			}
+			linked[m] = true
+			n++
+			if err := ms.include(m); err != nil {
+				errs = append(errs, err)
+			}
+		}
+		if n == 0 {
+			break
 		}
 	}
 
